@@ -263,6 +263,7 @@ func (e *Enc) dryRun(f *frame, li *loopInfo, order []*ssa.BasicBlock) (map[*ssa.
 	e.dry++
 	e.loopDry++
 	npairs := len(e.seqPairs)
+	nterms := len(e.seqTerms)
 	e.writesC, e.writesV = map[*ssa.Alloc]bool{}, map[string]bool{}
 	st := e.cur.clone()
 	for c, old := range st.cells {
@@ -290,6 +291,7 @@ func (e *Enc) dryRun(f *frame, li *loopInfo, order []*ssa.BasicBlock) (map[*ssa.
 	e.dry--
 	e.loopDry--
 	e.seqPairs = e.seqPairs[:npairs]
+	e.seqTerms = e.seqTerms[:nterms]
 	e.lines = e.lines[:nlines]
 	e.cur, e.reach = savedCur, savedReach
 	f.ins = savedIns
